@@ -138,6 +138,7 @@ type Explorer struct {
 	// BudgetExhausted records where: the property check then reports the
 	// obligation as undecided instead of running out of memory.
 	MaxPaths  int
+	Steps     int // blocks entered so far (bounded by 5×MaxPaths)
 	Exhausted bool
 	// ResolveCallee, when set, may name the function a dynamic call goes to on this path
 	// (a rule that seeded the key of a constant registry knows which entry is called).
@@ -386,7 +387,8 @@ func (e *Explorer) block(fn *ssa.Function, b, pred *ssa.BasicBlock, st *State, f
 	if e.MaxPaths == 0 {
 		e.MaxPaths = 40000
 	}
-	if e.Paths > e.MaxPaths {
+	e.Steps++
+	if e.Paths > e.MaxPaths || e.Steps > 5*e.MaxPaths {
 		if !e.Exhausted {
 			e.Exhausted = true
 			if e.P != nil {
@@ -629,6 +631,19 @@ func (e *Explorer) inlinable(c *ssa.CallCommon, st *State) *ssa.Function {
 	}
 	if callee == nil || callee.Blocks == nil || !InModule(callee) || !e.Inline(callee) {
 		return nil
+	}
+	// a function that is already being explored on this path (recursion) stays opaque
+	for _, site := range st.stack {
+		if site.Parent() == callee {
+			return nil
+		}
+		if ci, ok := site.(ssa.CallInstruction); ok {
+			for _, f := range e.P.Callees(ci.Common()) {
+				if f == callee {
+					return nil
+				}
+			}
+		}
 	}
 	return callee
 }
